@@ -132,7 +132,7 @@ Section CI.
     destruct Wm as [Wg Wc Wh [Wo1 Wo2] Wa Ws Wu Wpo Wpc Wtg Wcb Wms Wt Wpl Wl Wr Wd].
     specialize (Wpo Hpr).
     revert SW. unfold Model.step. rewrite (geom_ok_true _ Wg). cbn [negb]. rewrite andb_false_r, Hpr.
-    unfold Model.step_rest. rewrite (geom_ok_true _ Wg). cbn [negb].
+    unfold Model.step_rest, Model.step_after_read. rewrite (geom_ok_true _ Wg). cbn [negb].
     assert (Hsp : 0 <= space (buf s)) by (destruct Wg as [? [? ?]]; unfold space; lia).
     assert (Hav : 0 <= avail (buf s)) by (destruct Wg as [? [? ?]]; unfold avail; lia).
     destruct (read_n L PS (space (buf s)) s) as [n sch'] eqn:R.
